@@ -215,9 +215,15 @@ def check_s3(chk, m, K):
                                         and k2 not in ext[:1]]
                                 if len(ext) == 1 and not muts and (q != qq):
                                     moved = (qq, ext[0])
+                        # ... or the node IS the result of extracting the head of the other kernel queue: it was on that queue, a node
+                        # is on at most one queue (one link member), and it is now on none
+                        for k, c in fib.calls_on(p):
+                            if k < k_ins and c.callee == "list_extract" and strip_casts(c.res) == strip_casts(node) and \
+                                    K.queue_arg(c.args[0]) in ("runq", "timerq") and K.queue_arg(c.args[0]) != q:
+                                moved = (K.queue_arg(c.args[0]), k)
                         if moved is not None:
                             # the node being inserted is the one the iterator designated
-                            ev = ("moved out of kernel.%s by list_iterator_remove (a node is on at most one queue)" % moved[0], moved[1])
+                            ev = ("moved out of kernel.%s by list_iterator_remove / list_extract (a node is on at most one queue)" % moved[0], moved[1])
                     if ev is None and f.name == "fibre_timeout" and other == "timerq" and q == "timerq":
                         ev = ("listed exception: the running fibre was popped for dispatch and, within the property's scope, has at most "
                               "one unsatisfied fibre_timeout per dispatch", -1)
